@@ -635,12 +635,12 @@ def main(argv):
     # spec self-test: copying without verifying must be caught by TLC
     # (depth bounds are given slack: with a VIEW and several workers a state may first be reached by a
     # longer history than the shortest one, so a bound equal to the shortest counterexample is flaky)
-    r = tlc.run(d, "MC_MeshCache", mc_cfg(7, False, ["NoStaleRead"]), timeout=600)
+    r = tlc.run(d, "MC_MeshCache", mc_cfg(7, False, ["NoStaleRead"]), timeout=1500)
     if r.violated != "NoStaleRead":
         raise MachineryError("spec self-test: CopyVerifies=FALSE not detected")
     some = [m for m in mutators if intended_keep[m]][:1]
     d4 = tlc.prepare("c01/selftest", files={"MC_MeshCache.tla": gen_module(classes, mutators, intended_keep, valid_c, side_c, True, 0, some)})
-    r = tlc.run(d4, "MC_MeshCache", mc_cfg(7, True, ["NoStaleRead"]), timeout=600)
+    r = tlc.run(d4, "MC_MeshCache", mc_cfg(7, True, ["NoStaleRead"]), timeout=1500)
     if r.violated != "NoStaleRead":
         raise MachineryError("spec self-test: a mutator working under the lock without verifying was not detected")
 
